@@ -37,11 +37,33 @@ class BufferingDestination(object):
 
     def __init__(self):
         self.messages = []
+        self._lock = Lock()
+        # Once buffering has stopped, where late messages should go:
+        self._forward = None
 
     def __call__(self, message):
-        self.messages.append(message)
-        while len(self.messages) > 1000:
-            self.messages.pop(0)
+        with self._lock:
+            forward = self._forward
+            if forward is None:
+                self.messages.append(message)
+                while len(self.messages) > 1000:
+                    self.messages.pop(0)
+                return
+        # A thread that was still sending to the buffer while the first
+        # destinations were being added; pass the message along instead of
+        # losing it:
+        forward(message)
+
+    def stop_buffering(self, forward):
+        """
+        Stop buffering: later messages are passed to C{forward} instead.
+
+        @return: The C{list} of buffered messages.
+        """
+        with self._lock:
+            self._forward = forward
+            messages, self.messages = self.messages, []
+        return messages
 
 
 class Destinations(object):
@@ -133,9 +155,13 @@ class Destinations(object):
             # These are first set of messages added, so we need to clear
             # BufferingDestination:
             self._any_added = True
-            buffered_messages = self._destinations[0].messages
-            self._destinations = []
-        self._destinations.extend(destinations)
+            buffer = self._destinations[0]
+            # Swap in the real destinations in one step, so that a
+            # concurrent send() never sees an empty list:
+            self._destinations = list(destinations)
+            buffered_messages = buffer.stop_buffering(self.send)
+        else:
+            self._destinations.extend(destinations)
         if buffered_messages:
             # Re-deliver buffered messages:
             for message in buffered_messages:
